@@ -135,6 +135,15 @@ func c03Routing(c *lib.Ctx, idx uint64) {
 		ZeroFieldDefs: 4,
 		RedefSimilar:  30,
 		Monster:       3,
+		RepeatPrev:    12,
+		// message_index, start_time and timestamp together on the messages that have them:
+		// consecutive messages may then agree in everything but the timestamp
+		ForceFields: func(r *lib.Rand, g uint16) []byte {
+			if r.Chance(1, 3) {
+				return []byte{254, 2, 253}
+			}
+			return nil
+		},
 	}
 	g := lib.NewPlanGen(rng, o)
 	var plan *ref.Plan
